@@ -147,6 +147,11 @@ def gen_opt(rng, idx):
     if ctl and (r2.random() < 0.4 or idx < 2):
         u = r2.choice(ctl)
         spec["out_alias"] = ["out_" + u, u, r2.choice([1, -1])]
+        # (pymoca merges the attributes of an eliminated alias into the canonical variable - largest signed
+        #  nominal -; keep that third-party rule out of the comparison, as for `alias` above)
+        for d_ in spec["inputs"]:
+            if d_["name"] == u:
+                d_.pop("nominal", None)
     return spec
 
 
